@@ -86,15 +86,16 @@ type Exec struct {
 	expectPanic bool
 	side     map[string]Value // engine-side per-path storage for models
 	decisions int
-	callStack []string
+	callStack []*ssa.Function
 	orderAll bool
 	marks    []markRec
 	lastPanic *targetPanic
 	deferFrames []*frame
 	curFrame *frame
-	funcs    map[string]int
+	funcs    map[*ssa.Function]int
 	lit      map[*Term]bool
 	floatTexts []floatText
+	inStdInit int
 }
 
 func (x *Exec) unsupported(msg string) {
@@ -110,7 +111,11 @@ func (x *Exec) where() string {
 	if lo < 0 {
 		lo = 0
 	}
-	return " [in " + strings.Join(x.callStack[lo:], " > ") + "]"
+	var names []string
+	for _, f := range x.callStack[lo:] {
+		names = append(names, f.String())
+	}
+	return " [in " + strings.Join(names, " > ") + "]"
 }
 
 func (x *Exec) tpanic(msg string) {
@@ -122,7 +127,7 @@ func (x *Exec) site() string {
 	if len(x.callStack) == 0 {
 		return "?"
 	}
-	return x.callStack[len(x.callStack)-1]
+	return x.callStack[len(x.callStack)-1].String()
 }
 
 func (x *Exec) fresh(prefix string, s Sort) *Term {
